@@ -90,7 +90,7 @@ def gen_wrap(rng):
 
 def gen_cases(tier, seed):
     rng = random.Random(f"c06-{seed}")
-    nraw, nwrap, napi = (500, 3, 16) if tier == "quick" else (120000, 200, 1000)
+    nraw, nwrap, napi = (2500, 6, 24) if tier == "quick" else (120000, 200, 1000)
     cases = []
     for i in range(nraw):
         s = rng.getrandbits(32)
